@@ -20,7 +20,7 @@ Proof. revert n; induction l as [|a l IH]; intros [|n] H; cbn in *; try lia; aut
 Lemma nth_upd_neq {A} (l : list A) n m x d : n <> m -> nth m (upd l n x) d = nth m l d.
 Proof. revert n m; induction l as [|a l IH]; intros [|n] [|m] H; cbn; auto; try congruence. Qed.
 
-Lemma nth_error_nth' {A} (l : list A) n x d : nth_error l n = Some x -> nth n l d = x.
+Lemma nth_error_nth_eq {A} (l : list A) n x d : nth_error l n = Some x -> nth n l d = x.
 Proof. revert n; induction l as [|a l IH]; intros [|n] H; cbn in *; try discriminate; [congruence | auto]. Qed.
 
 (* ---------- wake_tids ---------- *)
